@@ -247,6 +247,11 @@ func (s *Syncer[H]) findTailHeight(ctx context.Context, oldTail, head H) (uint64
 		// estimate with tail for higher accuracy
 		headersToStore := uint64(tailTimeDiff / s.Params.blockTime) //nolint:gosec
 		estimatedTailHeight = oldTail.Height() + headersToStore
+		if estimatedTailHeight > head.Height() {
+			// header times are spaced wider than the block time (e.g. a halted chain),
+			// so the estimate overshoots the chain: there is no header above the head to become the tail
+			estimatedTailHeight = head.Height()
+		}
 	}
 
 	log.Debugw(
